@@ -7,6 +7,7 @@ import Gonuts.Model.WalletBooks
   `(books.op OP)`                                  one operation of a fault-free history → `(RES SNAP (trace…))`
   `(books.crash OP n)`                             the wallet dies before call number n → `(died|RES SNAP (trace…))`
   `(books.calls OP)`                               number of calls OP would make (state unchanged)
+  `(books.newwallet seed home)`                    a further wallet on an empty store, loaded → `(RES index (trace…))`
   `(books.snap w)`                                 snapshot of wallet w
   `(books.mint m)`                                 mint-side totals `(outstanding issued spent pendingValue reuse)`
   `(books.truth seed)`                             `(unspent pending)` value of the seed's signed outputs at all mints
@@ -141,6 +142,11 @@ def handleSt (st : BSt) (cmd : String) (args : List Sexp) : Option (BSt × Sexp)
   | "books.calls", [opx] => do
     let (op, ch) ← op? opx
     some (st, Sexp.ofNat (opCalls (selOf ch) st.w op))
+  | "books.newwallet", [seed, home] => do
+    let wi := st.w.wallets.length
+    let w0 : World := { st.w with wallets := st.w.wallets ++ [{ seed := ← seed.asNat?, mem := { defaultMint := ← home.asNat? } }] }
+    let (w', r) := applyOp selStable w0 (.reopen wi)
+    some ({ w := w' }, l [resSx r, Sexp.ofNat wi, l (w'.trace.map a)])
   | "books.snap", [wi] => do some (st, snapSx (st.w.wallet (← wi.asNat?)))
   | "books.mint", [mi] => do some (st, mintSx (st.w.mint (← mi.asNat?)))
   | "books.truth", [seed] => do some (st, truthSx st.w (← seed.asNat?))
